@@ -6,7 +6,8 @@ import Infretis.Lemmas.PathAlgExt
 /-!
 # C15 — path algebra: paste, reverse, copy and classification are consistent
 
-Property theorems only (helper lemmas: `Infretis/Lemmas/PathAlg.lean`, `PathAlgCls.lean`).
+Property theorems only (helper lemmas: `Infretis/Lemmas/PathAlg.lean`, `PathAlgCls.lean`, `PathAlgRev.lean`,
+`PathAlgWF.lean`, `PathAlgExt.lean`).
 Model: `Infretis/Model/PathAlg.lean` (mirrors `infretis/classes/path.py`, `system.py`).
 Paths of any length, any limit (`maxlen` may be `None`, zero or negative), any heap.
 
@@ -959,5 +960,201 @@ example :
         = [some (some 5, some 8), some (some 6, none), some (none, none)]
     ∧ m.paths.map (·.maxlen) = [some 7, some 100000] := by
   refine ⟨rfl, rfl, rfl⟩
+
+
+/-! ## which loop gave up: the warnings of `paste_paths` and `+=` -/
+
+/-- **paste_paths warns exactly when it drops a frame, and says where.**  The "unequal length" warning
+    appears iff no `maxlen` was passed and the two limits differ; "truncated while pasting backwards"
+    iff not even the backward segment fits (the pasted path then holds only its first `maxlen` frames
+    of reversed(back) and NO forward frame); otherwise "truncated path at" iff the result is shorter
+    than the offered sequence; the number in the message is the length of the result. -/
+theorem paste_warnings_spec (back forw np : Path) (ov : Bool) (ml : Option Int)
+    (h : paste back forw ov ml = .ok np) :
+    pasteWarnings back forw ov ml =
+      (if ml.isNone && back.maxlen != forw.maxlen then ["uneq:" ++ showOptInt np.maxlen] else [])
+      ++ (if np.frames.length < back.frames.length then ["tb:" ++ toString np.frames.length]
+          else if np.frames.length < (pasteSeq back forw ov).length then ["tf:" ++ toString np.frames.length]
+          else []) := by
+  have hcap := (paste_order back forw np ov ml h).1
+  have hlen := paste_length back forw np ov ml h
+  rw [pasteWarnings_closed back forw ov ml np.maxlen hcap]
+  have hfl : (forwPart forw ov).length = forw.frames.length - (if ov then 1 else 0) := by
+    unfold forwPart; cases ov <;> simp
+  have hps : (pasteSeq back forw ov).length = back.frames.length + (forwPart forw ov).length := by
+    unfold pasteSeq forwPart; simp
+  rw [hps, hlen, ← hfl]
+  congr 1
+  generalize (forwPart forw ov).length = nf
+  generalize back.frames.length = nb
+  cases hm : np.maxlen with
+  | none => simp [capLen]
+  | some m =>
+    have e1 : capLen (some m) nb = min m.toNat nb := rfl
+    have e2 : capLen (some m) (nb + nf) = min m.toNat (nb + nf) := rfl
+    by_cases h1 : m.toNat < nb
+    · rw [if_pos (show capLen (some m) nb < nb by omega), if_pos (show capLen (some m) (nb + nf) < nb by omega)]
+      have : capLen (some m) nb = capLen (some m) (nb + nf) := by omega
+      rw [this]
+    · rw [if_neg (show ¬ capLen (some m) nb < nb by omega), if_neg (show ¬ capLen (some m) (nb + nf) < nb by omega)]
+
+/-- `self += other` warns iff it could not take all of `other`'s frames; the number is the new length -/
+theorem iadd_warns_iff_truncated (self other : Path) :
+    iaddWarnings self other =
+      if room self other.frames.length < other.frames.length
+        then ["ti:" ++ toString (self.frames.length + room self other.frames.length)] else [] :=
+  iaddWarnings_closed self other
+
+example :
+    let back : Path := { Path.empty (some 2) 0 with frames := [0, 1, 2] }
+    let forw : Path := { Path.empty (some 4) 0 with frames := [0, 3, 4] }
+    pasteWarnings back forw true none = ["uneq:4", "tf:4"]
+    ∧ pasteWarnings back forw true (some 2) = ["tb:2"]
+    ∧ pasteWarnings back forw true (some 5) = []
+    ∧ iaddWarnings back forw = ["ti:3"] := by
+  refine ⟨rfl, rfl, rfl, rfl⟩
+
+
+/-! ## composition: where each frame of a pasted path comes from; copy of a pasted path; classification
+    of a copy -/
+
+/-- **Index map of `paste_paths` (time order).**  Frame `k` of the pasted path is backward frame
+    `|back|−1−k` for `k < |back|` and forward frame `k−|back|` (+1 when the segments overlap) afterwards;
+    and the time bookkeeping is consistent with it: the first backward frame (the shooting point),
+    which sits at index `|back|−1`, is at the time origin of the backward segment. -/
+theorem paste_index_map (back forw np : Path) (ov : Bool) (ml : Option Int)
+    (h : paste back forw ov ml = .ok np) (k : Nat) (hk : k < np.frames.length) :
+    np.frames[k]? = (if k < back.frames.length then back.frames[back.frames.length - 1 - k]?
+                     else forw.frames[(if ov then 1 else 0) + (k - back.frames.length)]?)
+    ∧ np.timeOrigin + ((back.frames.length : Int) - 1) = back.timeOrigin := by
+  refine ⟨?_, by rw [paste_time_origin back forw np ov ml h]; omega⟩
+  have hf := (paste_order back forw np ov ml h).2.1
+  rw [hf] at hk ⊢
+  rw [capTake_getElem?_lt _ _ _ hk]
+  unfold pasteSeq
+  by_cases hkb : k < back.frames.length
+  · rw [if_pos hkb, List.getElem?_append_left (by simpa using hkb), List.getElem?_reverse hkb]
+  · rw [if_neg hkb, List.getElem?_append_right (by simpa using Nat.le_of_not_lt hkb), List.length_reverse]
+    cases ov with
+    | true => simp only [if_true, List.getElem?_drop]
+    | false => simp
+
+/-- **A copy of a pasted path is independent of both segments** (composition of `paste_paths`, which
+    shares frame objects, with `copy()`, which does not): re-assigning any field of any frame of
+    `paste_paths(back, forw).copy()` leaves every frame of `back`, of `forw` and of the pasted path as it was. -/
+theorem copy_of_paste_independent (h : Heap) (back forw np : Path) (ov : Bool) (ml : Option Int)
+    (hp : paste back forw ov ml = .ok np) (hwb : WF h back.frames) (hwf : WF h forw.frames)
+    (r' : Nat) (hr' : r' ∈ (Path.copy h np).2.frames) (fld : Field) :
+    ∀ r, (r ∈ back.frames ∨ r ∈ forw.frames ∨ r ∈ np.frames) →
+      (assignField (Path.copy h np).1 r' fld).look r = h.look r := by
+  have hwn : WF h np.frames := by
+    intro r hr
+    rcases paste_shares_refs back forw np ov ml hp r hr with h1 | h1
+    · exact hwb r h1
+    · exact hwf r h1
+  have key := (copy_independent h np hwn r' hr' fld).1
+  intro r hr
+  rcases hr with h1 | h1 | h1
+  · exact key r (hwb r h1)
+  · exact key r (hwf r h1)
+  · exact key r (hwn r h1)
+
+/-- **A copy classifies like the original**: a path within its limit and its copy hold the same order
+    sequence, so every classification method (`ordermin`, `ordermax`, `check_interfaces`, `success`,
+    start / end point) answers the same on both. -/
+theorem copy_keeps_classification (h : Heap) (p : Path) (hwf : WF h p.frames)
+    (hfits : capLen p.maxlen p.frames.length = p.frames.length) (intf : List Int) (t : Int) (seq : List Int)
+    (hs : orderSeq h p = some seq) :
+    orderSeq (Path.copy h p).1 (Path.copy h p).2 = some seq
+    ∧ Path.classify (Path.copy h p).1 (Path.copy h p).2 intf t = Path.classify h p intf t := by
+  have h1 : orderSeq (Path.copy h p).1 (Path.copy h p).2 = some seq := by
+    rw [orderSeq_eq_looks, (copy_values h p hwf).1, capTake_of_fits _ _ (by simpa using hfits),
+      ← orderSeq_eq_looks]
+    exact hs
+  exact ⟨h1, by rw [classify_reads_current_orders _ _ intf t seq h1, classify_reads_current_orders _ _ intf t seq hs]⟩
+
+/-- **Time reversal swaps the start and the end classification** (on the order sequence): the start
+    point of the reversed sequence is classified like the end point of the original and vice versa
+    (`'?'` and `None` both mean "between the interfaces"). -/
+theorem reverse_swaps_ends (ops : List Int) (left : Int) (right : Option Int) :
+    startPoint ops.reverse left right = endPoint ops left right
+    ∧ endPoint ops.reverse left right = startPoint ops left right := by
+  constructor <;> simp [startPoint, endPoint]
+
+example :
+    let back : Path := { Path.empty none 7 with frames := [0, 1, 2] }
+    let forw : Path := { Path.empty none 0 with frames := [0, 3, 4] }
+    (paste back forw true none).map (fun np => (np.frames, np.timeOrigin)) = .ok ([2, 1, 0, 3, 4], 5)
+    ∧ startPoint [0, 1, 3] 1 (some 2) = .ok .L ∧ endPoint [3, 1, 0] 1 (some 2) = .ok .L := by
+  refine ⟨rfl, rfl, rfl⟩
+
+
+/-! ## reverse and classification, end to end; `adress` -/
+
+/-- **The reversed path carries the reversed order sequence** (path within its limit; the order
+    parameter is not re-computed, i.e. no order function, or not velocity dependent, or `rev_v=False`). -/
+theorem reverse_order_sequence (h : Heap) (p : Path) (ofn : Option OrderFn) (rv : Bool) (hwf : WF h p.frames)
+    (hfits : capLen p.maxlen p.frames.length = p.frames.length)
+    (hno : ∀ f, ofn = some f → (f.velDep && rv) = false) (seq : List Int) (hs : orderSeq h p = some seq) :
+    orderSeq (Path.reverse h p ofn rv).1 (Path.reverse h p ofn rv).2 = some seq.reverse := by
+  have hlenv : (vals h p).length = p.frames.length := by simp [vals]
+  rw [orderSeq_eq_vals, reverse_vals h p ofn rv hwf,
+    capTake_of_fits _ _ (by simpa [hlenv] using hfits), mapM_option_map]
+  have hfun : (fun x => headOrderV (Option.map (revVals ofn rv) x)) = headOrderV := by
+    funext o
+    cases o with
+    | none => rfl
+    | some v => simp only [Option.map_some, headOrderV, revVals_order_of_no_recompute ofn rv v hno]
+  rw [hfun]
+  apply mapM_option_reverse
+  rw [← orderSeq_eq_vals]; exact hs
+
+/-- **Reversal keeps the extreme values** (only the index at which they are first attained changes),
+    hence `success` and every crossing flag. -/
+theorem reverse_keeps_extremes (ops : List Int) (hne : ops ≠ []) :
+    (∃ v j j', ordermax ops = .ok (v, j) ∧ ordermax ops.reverse = .ok (v, j'))
+    ∧ (∃ v j j', ordermin ops = .ok (v, j) ∧ ordermin ops.reverse = .ok (v, j'))
+    ∧ ∀ t, success ops.reverse t = success ops t := by
+  have hne' : ops.reverse ≠ [] := by simpa using hne
+  obtain ⟨v, j, hv, hj, hall, _⟩ := ordermax_agrees ops hne
+  obtain ⟨v', j', hv', hj', hall', _⟩ := ordermax_agrees ops.reverse hne'
+  obtain ⟨w, k, hw, hk, hallw, _⟩ := ordermin_agrees ops hne
+  obtain ⟨w', k', hw', hk', hallw', _⟩ := ordermin_agrees ops.reverse hne'
+  have e1 : v' = v := by
+    have a := hall v' (List.mem_reverse.1 (List.mem_of_getElem? hj'))
+    have b := hall' v (List.mem_reverse.2 (List.mem_of_getElem? hj))
+    omega
+  have e2 : w' = w := by
+    have a := hallw w' (List.mem_reverse.1 (List.mem_of_getElem? hk'))
+    have b := hallw' w (List.mem_reverse.2 (List.mem_of_getElem? hk))
+    omega
+  subst e1; subst e2
+  refine ⟨⟨_, _, _, hv, hv'⟩, ⟨_, _, _, hw, hw'⟩, ?_⟩
+  intro t
+  simp [success, hv, hv']
+
+/-- **`adress` is the set of trajectory files of the frames**: a name is in it iff some frame's
+    `config[0]` is that name; no name is listed twice. -/
+theorem adress_is_config_set (h : Heap) (p : Path) (x : Int) :
+    (x ∈ p.adress h ↔ ∃ r ∈ p.frames, ∃ s, h.look r = some s ∧ s.v.config.1 = x) ∧ (p.adress h).Nodup := by
+  unfold Path.adress
+  refine ⟨?_, nodup_eraseDups_int _⟩
+  rw [List.mem_eraseDups, List.mem_filterMap]
+  constructor
+  · rintro ⟨r, hr, hx⟩
+    cases hl : h.look r with
+    | none => simp [hl] at hx
+    | some s => exact ⟨r, hr, s, hl, by simpa [hl] using hx⟩
+  · rintro ⟨r, hr, s, hl, hx⟩
+    exact ⟨r, hr, by simp [hl, hx]⟩
+
+example :
+    let v : Vals := { config := (4, 0), order := [1], velRev := false, ekin := none, vpot := none,
+                      pos := 0, vel := 0, box := 0, temp := 0 }
+    (Machine.init.run [.new none 0, .sys 0 v, .sys 0 { v with order := [3], config := (2, 1) },
+        .sys 0 { v with order := [2] }, .rev 0 none true, .classify 1 [1, 2, 3] 2, .classify 0 [1, 2, 3] 2, .adr 0]).log.drop 5
+      = ["min=1,2;max=3,1;chk=?,L,M,011;suc=True;sp=?;ep=L", "min=1,0;max=3,1;chk=L,None,M,011;suc=True;sp=L;ep=None",
+         "adr,2,4"] := by
+  rfl
 
 end Infretis.C15
